@@ -165,7 +165,7 @@ impl<T: Serialize> Serialize for Vec<T> {
     fn deserialize(bytes: &[u8]) -> Result<Self, DbError> {
         let len = usize::deserialize(bytes)?;
         let mut begin = len.serialized_size() as usize;
-        let mut vec = Self::with_capacity(len);
+        let mut vec = Self::with_capacity(std::cmp::min(len, bytes.len()));
 
         for _ in 0..len {
             let value = T::deserialize(&bytes[begin..]).map_err(|_| {
